@@ -371,6 +371,18 @@ fn run(ctx: &Ctx, src: &mut Src) -> WorldResult {
     let wraps = !src.chance(1, 3);
     let vctx = view_ctx(glyphs, *src.pick(&[Size::new(2, 2), Size::new(0, 0), Size::new(5, 3)]));
     let items = gen_items(src, ctx.tier, kind == WriterKind::Tty);
+    // neighbouring byte items form one buffer: the "one piece" reference then really is one
+    // write call per stretch of bytes (several escape sequences in a single write included)
+    let items: Vec<Item> = {
+        let mut merged: Vec<Item> = Vec::with_capacity(items.len());
+        for item in items {
+            match (merged.last_mut(), item) {
+                (Some(Item::Bytes(head)), Item::Bytes(tail)) => head.extend_from_slice(&tail),
+                (_, item) => merged.push(item),
+            }
+        }
+        merged
+    };
     src.log(|| format!("view {:?} writer={:?} glyphs={} wraps={}", spec, kind, glyphs, wraps));
     src.log(|| format!("items {:?}", items.iter().map(|i| match i {
         Item::Bytes(b) => format!("{:?}", String::from_utf8_lossy(b)),
